@@ -19,7 +19,7 @@ EXTENDS Integers, Sequences, FiniteSets, TLC, Json, SequencesExt
 
 CONSTANTS MaxId,      \* ids 0..MaxId-1
           MaxOps, Directed,
-          Mutant      \* "none" | "skip_one" | "clear_upto_count" | "no_incoming_clear" | "always_push_removed" (an equivalent variant: never lowering ub is also correct)
+          Mutant      \* "none" | "skip_one" | "clear_upto_count" | "no_incoming_clear" | "clear_live_block" | "always_push_removed" (an equivalent variant: never lowering ub is also correct)
 
 VARIABLES ub, removed, cells, nb, res, hist
 vars == <<ub, removed, cells, nb, res, hist>>
@@ -82,7 +82,13 @@ RemoveNode(a) ==
     /\ res' = a
     /\ Log([op |-> "remove_node", a |-> a, b |-> 0, res |-> 0])
 
-Next == AddNode \/ (\E a \in 0 .. (MaxId - 1) : RemoveNode(a) \/ \E b \in 0 .. (MaxId - 1) : UpdateEdge(a, b) \/ RemoveEdge(a, b))
+\* clear(): ids and the WHOLE matrix are reset (a cell left behind would be inherited by a re-issued id)
+Clear ==
+    /\ ub' = 0 /\ removed' = <<>> /\ nb' = 0 /\ res' = 0
+    /\ cells' = IF Mutant = "clear_live_block" THEN {c \in cells : c[1] >= ub - Len(removed) \/ c[2] >= ub - Len(removed)} ELSE {}
+    /\ Log([op |-> "clear", a |-> 0, b |-> 0, res |-> 0])
+
+Next == Clear \/ AddNode \/ (\E a \in 0 .. (MaxId - 1) : RemoveNode(a) \/ \E b \in 0 .. (MaxId - 1) : UpdateEdge(a, b) \/ RemoveEdge(a, b))
 Spec == Init /\ [][Next]_vars
 Bounded == Len(hist) <= MaxOps
 View == <<ub, removed, cells, nb>>
